@@ -38,7 +38,7 @@ Definition al := approx_list.
 """
 
     OPS = ["append", "ov_lin", "ov_pc", "ext_lin", "ext_const", "integral", "sum_idx", "iget", "iset",
-           "to2d", "to2d_closed", "average", "avg_roundtrip", "nfull", "iov", "iext"]
+           "to2d", "to2d_closed", "average", "avg_roundtrip", "nfull", "iov", "iext", "set_then_2d", "set_then_2d"]
 
     def gen(self, rng, tier):
         cases = []
@@ -95,6 +95,10 @@ Definition al := approx_list.
             if rng.random() < 0.2 and len(idx) >= 2:
                 idx[0], idx[-1] = idx[-1], idx[0]
             c["idx"] = idx
+        elif op == "set_then_2d":
+            c["key"] = [rng.randint(0, max(0, (L - 1) // n)), 0]
+            c["key"][1] = rng.randint(0, min(n - 1, L - 1 - c["key"][0] * n))
+            c["val"] = gens.dyadic(rng, -8, 8, 2)
         elif op in ("iget", "iset"):
             kind = rng.choice(["pair", "pair", "int", "triple"])
             if kind == "pair":
@@ -145,6 +149,11 @@ Definition al := approx_list.
                 k = c["key"]
                 ia[k if isinstance(k, int) else tuple(k)] = c["val"]
                 return {"out": ia.array.tolist()}
+            if op == "set_then_2d":      # lay out, write through the view, lay out again on the SAME object
+                ia.to_2d_array()
+                ia.to_2d_array_closed_intervals()
+                ia[tuple(c["key"])] = c["val"]
+                return {"rows": ia.to_2d_array().tolist(), "flat": np.asarray(ia.array, dtype=float).tolist()}
             if op == "to2d":
                 return {"rows": ia.to_2d_array().tolist()}
             if op == "to2d_closed":
@@ -208,6 +217,9 @@ Definition al := approx_list.
         if op == "iset":
             return "match %s with Ok r => al %s (arr r) %s | _ => false end" % (self.ikey_expr(c, "iset"), tol, qlist(o["out"], qa))
         ia = "{| arr := %s; isize := %d |}" % (A, n)
+        if op == "set_then_2d":
+            return "match iset %s (KPair %s %s) %s with Ok r => rows_match %s (to_2d_array r) %s | _ => false end" % (
+                ia, zlit(c["key"][0]), zlit(c["key"][1]), q(c["val"]), tol, cells(o["rows"]))
         if op == "to2d":
             return "rows_match %s (to_2d_array %s) %s" % (tol, ia, cells(o["rows"]))
         if op == "to2d_closed":
@@ -340,6 +352,14 @@ Definition al := approx_list.
                 exp[f] = c["val"]
                 if o["out"] != exp:
                     fail("interval-index", "a[%s]=v wrote %s" % (k, o["out"]))
+        elif op == "set_then_2d":
+            f = c["key"][0] * n + c["key"][1]
+            exp = list(a)
+            exp[f] = c["val"]
+            m = -(-L // n)
+            erows = [[exp[r * n + j] if r * n + j < L else math.nan for j in range(n)] for r in range(m)]
+            if o["flat"] != exp or not np.array_equal(np.array(o["rows"], dtype=float), np.array(erows, dtype=float), equal_nan=True):
+                fail("layout", "after a write through the view the 2-D layout is %s, the flat array laid out row by row is %s" % (o["rows"], erows))
         elif op in ("to2d", "to2d_closed"):
             rows = o["rows"]
             m = -(-L // n)
